@@ -158,6 +158,36 @@ theorem batch_create_edges_result (s : St) (items : List EdgeIn) :
       nodeEx s.kv n = false) :=
   batchCreateEdges_res s items
 
+
+/-- what `batch_delete_edges`, `batch_delete_nodes` and `batch_update_nodes` ANSWER: exactly what the
+    single calls answer one after the other (`seqRes`) — the ids whose delete answered `ok` as
+    `deleted_ids`, (input index, id, cause) of the others as `failed`, both in input order; the number
+    of updates that answered `ok` (when the validation phase passed). -/
+theorem batch_delete_update_results (s : St) :
+    (∀ ids, (apply s (.batchDeleteEdges ids)).1 =
+      .batchDel (delOutcome 0 ids (seqRes s (ids.map .deleteEdge))).1
+        (delOutcome 0 ids (seqRes s (ids.map .deleteEdge))).2) ∧
+    (∀ ns, (apply s (.batchDeleteNodes ns)).1 =
+      .batchDel (delOutcome 0 (ns.map Prod.fst) (seqRes s (ns.map fun x => .deleteNode x.1 x.2))).1
+        (delOutcome 0 (ns.map Prod.fst) (seqRes s (ns.map fun x => .deleteNode x.1 x.2))).2) ∧
+    (∀ us, nodesExist s.kv us = true → (apply s (.batchUpdateNodes us)).1 =
+      .count (countOk (seqRes s (us.map fun x => .updateNode x.1 x.2.1 x.2.2)))) := by
+  refine ⟨fun ids => ?_, fun ns => ?_, fun us hv => ?_⟩
+  · have := bdeLoop_res ids 0 [] [] s
+    simp only [List.reverse_nil, List.nil_append] at this
+    exact this
+  · have := bdnLoop_res ns 0 [] [] s
+    simp only [List.reverse_nil, List.nil_append] at this
+    exact this
+  · simp only [apply, Op.prog, batchUpdateNodesProg]
+    rcases run1_bunValidate (bunLoop us 0) us 0 s with ⟨_, h2⟩ | ⟨h1, _⟩
+    · rw [h2, bunLoop_res]; simp
+    · rw [hv] at h1; cases h1
+
+/-- deleting edge 1 twice and an unknown id: one success, two `not found`, store as after one delete -/
+example : (apply twoNodesEdgeS (.batchDeleteEdges [1, 1, 9])).1 =
+    .batchDel [1] [(1, 1, .notFound), (2, 9, .notFound)] := by decide
+
 /-- Re-opening (`GraphEngine::with_store` over the same store: the counters are re-derived as the
     largest stored node / edge id) keeps the invariant, so structural well-formedness holds after
     every session of operations and re-openings: a fresh id never collides with stored data, although
@@ -269,6 +299,30 @@ theorem edges_of_spec (m : KV) (h : WF m) (n : Nat) (dir : Dir) (hn : nodeEx m n
   · intro e r
     rw [mem_withRec, mem_edgesOfIds, mem_outL_iff h, mem_inL_iff h]
     exact ⟨fun hh => ⟨hh.2, hh.1⟩, fun hh => ⟨hh.2, hh.1⟩⟩
+
+
+/-- The property as a client sees it through `edges_of`: in a well-formed store every existing edge
+    is returned (with its record) by `edges_of(from, Outgoing)` and by `edges_of(to, Incoming)`, an
+    undirected one also the other way round; conversely (`edges_of_spec`) whatever `edges_of` returns
+    exists and touches the node.  With `wf_preserved` this holds after every sequence of operations. -/
+theorem edge_visible_from_both_endpoints (m : KV) (h : WF m) (e : Nat) (r : EdgeRec)
+    (hr : edgeAt m e = some r) :
+    (∃ l, edgesOf m r.src .outgoing = some l ∧ (e, r) ∈ l) ∧
+    (∃ l, edgesOf m r.dst .incoming = some l ∧ (e, r) ∈ l) ∧
+    (r.directed = false →
+      (∃ l, edgesOf m r.dst .outgoing = some l ∧ (e, r) ∈ l) ∧
+      (∃ l, edgesOf m r.src .incoming = some l ∧ (e, r) ∈ l)) := by
+  obtain ⟨h1, h2, _⟩ := h.edge_listed e r hr
+  obtain ⟨l1, e1, _, m1⟩ := edges_of_spec m h r.src .outgoing h1
+  obtain ⟨l2, e2, _, m2⟩ := edges_of_spec m h r.dst .incoming h2
+  obtain ⟨l3, e3, _, m3⟩ := edges_of_spec m h r.dst .outgoing h2
+  obtain ⟨l4, e4, _, m4⟩ := edges_of_spec m h r.src .incoming h1
+  refine ⟨⟨l1, e1, (m1 e r).mpr ⟨hr, Or.inl ⟨Or.inl rfl, r, hr, Or.inl rfl⟩⟩⟩,
+    ⟨l2, e2, (m2 e r).mpr ⟨hr, Or.inr ⟨Or.inl rfl, r, hr, Or.inl rfl⟩⟩⟩, fun hd => ?_⟩
+  exact ⟨⟨l3, e3, (m3 e r).mpr ⟨hr, Or.inl ⟨Or.inl rfl, r, hr, Or.inr ⟨hd, rfl⟩⟩⟩⟩,
+    ⟨l4, e4, (m4 e r).mpr ⟨hr, Or.inr ⟨Or.inl rfl, r, hr, Or.inr ⟨hd, rfl⟩⟩⟩⟩⟩
+
+example : edgeAt twoNodesEdgeS.kv 1 = some ⟨1, 2, true, 0, 0⟩ := by decide
 
 theorem edges_of_missing_node (m : KV) (n : Nat) (dir : Dir) (hn : nodeEx m n = false) :
     edgesOf m n dir = none := by
